@@ -327,7 +327,7 @@ func (p *specParser) mul() (*Expr, error) {
 }
 
 func (p *specParser) unary() (*Expr, error) {
-	for _, op := range []string{"!", "-", "^"} {
+	for _, op := range []string{"!", "-", "^", "*", "&"} {
 		if p.isOp(op) {
 			p.next()
 			x, err := p.unary()
